@@ -1608,6 +1608,32 @@ func lenAtEdge(v ssa.Value, pred, succ *ssa.BasicBlock, ptrBits, depth int) ival
 		n := int64(len(constant.StringVal(k.Value)))
 		return ival{lo: n, hi: n}
 	}
+	// v compared with the empty string on the way to the edge: v != "" means len(v) >= 1
+	nonEmpty := func(cond ssa.Value, truth bool) bool {
+		bo, ok := cond.(*ssa.BinOp)
+		if !ok || (bo.Op != token.EQL && bo.Op != token.NEQ) {
+			return false
+		}
+		for _, pr := range [][2]ssa.Value{{bo.X, bo.Y}, {bo.Y, bo.X}} {
+			if pr[0] != v {
+				continue
+			}
+			if k, ok := pr[1].(*ssa.Const); ok && k.Value != nil && k.Value.Kind() == constant.String && constant.StringVal(k.Value) == "" {
+				return (bo.Op == token.NEQ) == truth
+			}
+		}
+		return false
+	}
+	for _, g := range guardEdges(pred) {
+		if nonEmpty(g.If.Cond, g.Truth) {
+			out.lo = 1
+		}
+	}
+	if iff, ok := pred.Instrs[len(pred.Instrs)-1].(*ssa.If); ok && succ != nil && len(pred.Succs) == 2 && pred.Succs[0] != pred.Succs[1] {
+		if nonEmpty(iff.Cond, pred.Succs[0] == succ) {
+			out.lo = 1
+		}
+	}
 	if v.Referrers() == nil {
 		return out
 	}
